@@ -53,7 +53,7 @@ type c07Spec struct {
 	maxN  int
 	n     int
 	burst bool
-	storm int // > 0: every tunnel pumps this many payloads each way at once
+	storm int  // > 0: every tunnel pumps this many payloads each way at once
 	stall bool // storm variant: every other client reads late, through a small receive buffer, and host payloads are large
 	tuns  []*c07Tun
 	evs   []c07Ev
@@ -295,7 +295,12 @@ func c07Big(dir string, idx, seq int) []byte {
 	return b
 }
 
-func (rd *c07Round) nextConn() int { rd.mu.Lock(); defer rd.mu.Unlock(); rd.connCtr++; return rd.connCtr }
+func (rd *c07Round) nextConn() int {
+	rd.mu.Lock()
+	defer rd.mu.Unlock()
+	rd.connCtr++
+	return rd.connCtr
+}
 func (rd *c07Round) emit(ev string) { rd.mu.Lock(); rd.trace = append(rd.trace, ev); rd.mu.Unlock() }
 
 func c07Mint(user, host, xff string) string {
